@@ -38,7 +38,9 @@ def register(R):
                    "result == (%s + t_ppf(1 - self.significance / 2, self.reference_n + test_n - 2) * (%s / sqrt(%s)) "
                    "if stat == 'tstat' else %s + self.significance * %s)" % (EHAT, STDEV, DSCALE, EHAT, STDEV),
                ],
-               modifies=["epsilon", "total_epsilon"], check_invariant=False, assume_invariant=False)
+               modifies=["epsilon", "total_epsilon"], check_invariant=False, assume_invariant=False,
+               # what update()'s skeleton needs of it: the effect on the epsilon list (the value itself is 'self.beta')
+               views={"list_effect": [0, 1]})
     # C17: smaller t-test significance / larger number of standard deviations never lowers the threshold
     R.relational("HDM_significance", function=HD + "._adaptive_threshold", tags=("C17",), vary=["significance"],
                  requires=["(stat1 == 'tstat' and self1.significance <= self2.significance) or "
@@ -63,3 +65,82 @@ def register(R):
             ensures=["hell_sum(a, b, n, n, k) == hell_sum(b, a, n, n, k)"], induct=("k", "0"))
     R.lemma("hell_nonneg", params={"a": "List[Int]", "b": "List[Int]", "n": "Real", "m": "Real", "k": "Int"}, requires=["k >= 0"],
             ensures=["hell_sum(a, b, n, m, k) >= 0"], induct=("k", "0"))
+
+
+    # ---- update(): skeleton of the decision rule and the reference hand-over (C07), detect_batch 2 and 3 ------------------
+    register_update(R)
+
+
+UPD_FIELDS = {"reference": "DF", "distance_function": "Func[dist]", "current_distance": "Real", "_prev_distance": "Real",
+              "distances": "Map[Real]", "epsilon_values": "Map[Real]", "thresholds": "Map[Real]", "beta": "Real",
+              "feature_epsilons": "Opaque[AnyList]", "_prev_feature_distances": "Opaque[AnyList]",
+              "_reference_density": "Opaque[Hists]", "feature_info": "Opaque[AnyDict]"}
+FRESH = "old(self._drift_state) == 'drift'"
+S1 = "(1 if %s else old(self._batches_since_reset) + 1)" % FRESH
+T1 = "(old(self._total_batches) + 1)"
+TESTED = "((%s >= 2 and self.detect_batch != 3) or (%s >= 3 and self.detect_batch == 3))" % (S1, S1)
+EPS = "abs(self.current_distance - old(self._prev_distance))"
+B_REJECT = ("(is_df(X) and self._input_cols is not None and not cols_equal(cols(X), self._input_cols)) or "
+            "((not is_df(X)) and self._input_col_dim is not None and bwidth(X) != self._input_col_dim) or brows(X) <= 1")
+# length of the epsilon list as a function of the position in the epoch (the bootstrapped first value lives for one batch)
+ELEN = ("(0 if self._batches_since_reset <= 1 else (2 if (self._batches_since_reset == 2 and self.detect_batch != 3) "
+        "else self._batches_since_reset - 1))")
+
+
+def register_update(R):
+    from .detector_base import MEMO_INV
+    f = dict(FIELDS)
+    f.update(UPD_FIELDS)
+    R.klass(HD, fields=f, invariant=[
+        ("C01", "self._drift_state is None or self._drift_state == 'drift'"),
+        ("C01", "0 <= self._batches_since_reset and self._batches_since_reset <= self._total_batches"),
+        ("C07", "self.detect_batch == 1 or self.detect_batch == 2 or self.detect_batch == 3"),
+        ("C07", "implies(self._drift_state != 'drift', len(self.epsilon) == %s)" % ELEN),
+        ("C07", "implies(self._drift_state != 'drift', self._batches_since_reset <= self._total_batches - self._lambda)"),
+    ] + list(MEMO_INV))
+    R.contract(M + ".reset", tags=("C07", "C02"), on_self="HDDDM", modular=True, params={},
+               requires=["self.detect_batch != 1"],
+               ensures=["self._batches_since_reset == 0 and self._drift_state is None and len(self.epsilon) == 0 and self.total_epsilon == 0",
+                        "self.reference_n == len(self.reference) and self._bins == floor(sqrt(self.reference_n))",
+                        "unchanged(self._total_batches) and unchanged(self._lambda) and unchanged(self.reference) and "
+                        "unchanged(self._prev_distance) and unchanged(self._input_cols) and unchanged(self._input_col_dim)"],
+               modifies=["_batches_since_reset", "_drift_state", "epsilon", "total_epsilon", "reference_n", "_bins"],
+               check_invariant=False)
+    R.contract(M + "._build_histograms", tags=("C07",), on_self="HDDDM", modular=True,
+               params={"dataset": "DF", "min_values": "Opaque[AnyList]", "max_values": "Opaque[AnyList]"},
+               result="Opaque[Hists]", ensures=[], modifies=[], check_invariant=False, assume_invariant=False)
+    R.contract(M + "._estimate_initial_epsilon", tags=("C07",), on_self="HDDDM", modular=True,
+               params={"reference": "DF", "num_subsets": "Int", "histogram_mins": "Opaque[AnyList]", "histogram_maxes": "Opaque[AnyList]"},
+               result="Real", ensures=[], modifies=[], check_invariant=False, assume_invariant=False)
+    R.contract(M + ".update", tags=("C07", "C01"), on_self="HDDDM",
+               params={"X": "RawX", "y_true": "RawY", "y_pred": "RawY"},
+               reads_not=["y_true", "y_pred"], reads_not_tags=("C16",),
+               calls={M + ".reset": "contract", HD + "._adaptive_threshold": "contract:list_effect"},
+               requires=["self.detect_batch != 1", "self._input_col_dim is not None"],
+               raises={"ValueError": {"when": B_REJECT, "iff": True, "tags": "C14", "ensures": [
+                   ("C14", "self._total_batches == old(self._total_batches)")]}},
+               ensures=[
+                   ("C01", "self._total_batches == %s" % T1),
+                   ("C01", "self._batches_since_reset == %s" % S1),
+                   ("C07", "self.distances[%s] == self.current_distance" % T1),
+                   # epsilon is the absolute change of the distance between consecutive batches of the epoch
+                   ("C07", "implies(%s >= 2, self.epsilon_values[%s] == %s and self.epsilon[len(self.epsilon) - 1] == %s)" % (S1, T1, EPS, EPS)),
+                   # drift is reported exactly when epsilon exceeds the adaptive threshold, from the detect_batch-th batch on
+                   ("C07", "implies(%s, (self._drift_state == 'drift') == (%s > self.beta))" % (TESTED, EPS)),
+                   ("C07", "implies(%s, self.thresholds[%s] == self.beta)" % (TESTED, T1)),
+                   ("C07", "implies(not %s, self._drift_state is None)" % TESTED),
+                   # without drift the batch is appended to the reference; with drift it replaces it and the statistics restart
+                   # (frames are opaque here: the hand-over is stated through row counts; which rows is decided by the bounded tier)
+                   ("C07", "implies(self._drift_state is None, len(self.reference) == len(old(self.reference)) + brows(X) and "
+                           "self.reference_n == len(self.reference) and self._bins == floor(sqrt(self.reference_n)))"),
+                   ("C07", "implies(self._drift_state is None, self._prev_distance == self.current_distance and unchanged(self._lambda))"),
+                   ("C07", "implies(self._drift_state == 'drift', len(self.reference) == brows(X) and self._lambda == %s and "
+                           "unchanged(self._prev_distance))" % T1),
+               ],
+               modifies=["_total_batches", "_batches_since_reset", "_drift_state", "_input_cols", "_input_col_dim", "epsilon", "total_epsilon",
+                         "reference_n", "_bins", "reference", "current_distance", "_prev_distance", "distances", "epsilon_values",
+                         "thresholds", "beta", "feature_epsilons", "_prev_feature_distances", "_reference_density", "feature_info", "_lambda"],
+               loops={0: {"index": "k0", "types": {"mins": "Opaque[AnyList]", "maxes": "Opaque[AnyList]"},
+                          "havoc_locals": ["mins", "maxes", "f", "reference_variable", "test_variable"], "invariant": []},
+                      1: {"index": "k1", "types": {"feature_distances": "Opaque[AnyList]"},
+                          "havoc_locals": ["feature_distances", "total_distance", "f", "f_distance"], "invariant": []}})
